@@ -717,12 +717,15 @@ def run(ctx):
     sp = os.path.join(vlib.REPO, "datasets", shipped)
     ship_v = None
     if os.path.exists(sp):
-        df = vu.read_ec_benchmark_dataset(sp)
-        with open(sp) as f:
-            raw = [l for l in f.read().split("\n") if l.strip()]
-        body = [[x.strip() for x in l.split(";")] for l in raw[1:]]
-        ok = len(df) == len(body) and [t.strftime("%Y-%m-%d-%H") for t in df.index] == [b[0] for b in body] and \
-            np.array_equal(np.asarray(df.values, dtype=float), np.array([[float(x) for x in b[1:]] for b in body]))
+        try:
+            df = vu.read_ec_benchmark_dataset(sp)
+            with open(sp) as f:
+                raw = [l for l in f.read().split("\n") if l.strip()]
+            body = [[x.strip() for x in l.split(";")] for l in raw[1:]]
+            ok = len(df) == len(body) and [t.strftime("%Y-%m-%d-%H") for t in df.index] == [b[0] for b in body] and \
+                np.array_equal(np.asarray(df.values, dtype=float), np.array([[float(x) for x in b[1:]] for b in body]))
+        except Exception:  # noqa
+            ok = False
         ctx.count(("shipped", shipped), True)
         if not ok:
             ship_v = ({"function": "read_ec_benchmark_dataset", "clause": "shipped-file"}, "%s: rows/index/values differ from the file's lines" % shipped)
